@@ -41,7 +41,9 @@ def run_case(case):
         sender["delay"] = ["det", round(rnd.uniform(0.05, 0.5) / rate, 5)]
     else:
         sender["delay"] = ["norm", round(0.4 / rate, 5), round(rnd.choice([0.02, 0.1, 0.3]) / rate, 5)]
-    dmin = round(rnd.choice([0.0, 0.0, rnd.uniform(0, 0.3) / rate]), 5)
+    dmin = round(rnd.choice([0.0, rnd.uniform(0.02, 0.3) / rate, rnd.uniform(0.02, 0.3) / rate]), 5)
+    if case.get("way") == "create":  # the delay set "through the distribution": a range that does not start at 0 is where mean()/sample() offsets matter
+        dmin = max(dmin, round(0.05 / rate, 5))
     dmax = round(dmin + rnd.uniform(0.3, 2.5) / rate, 5)
     way = case.get("way") or rnd.choice(["create", "init_delays", "init_delays_lower", "alpha", "saturate_hi", "saturate_lo"])
     d = round(rnd.uniform(dmin, dmax), 5)
@@ -165,6 +167,6 @@ def run_case(case):
 
 
 def plan(tier, seed):
-    n = 24 if tier == "quick" else 200
+    n = 24 if tier == "quick" else 320  # about half of the cases are non-trivial (d moves at least one message to another step)
     ways = ["create", "init_delays", "init_delays_lower", "alpha", "saturate_hi", "saturate_lo", "create", "init_delays_lower"]
     return [dict(name=f"g-{i}", spec_seed=seed * 100153 + i, way=ways[i % len(ways)], jitter_free=(i % 4 != 3), timeout=600) for i in range(n)]
